@@ -306,13 +306,38 @@ def check_crate(fx, rep, crate, cn):
         stores = [(b, i, s) for b, i, s in sbd.iter_assigns() if any(n == 'value' for a, n in mir.place_fields(s['place']))]
         sends = [(b, t) for b, t in sbd.iter_terms('call') if t['callee'].get('name') in ('send', 'broadcast_direct', 'broadcast', 'try_broadcast')]
         ok = bool(stores) and bool(sends)
-        rep.check(ok, 'R20.5', '%s|%s|set-stores-and-broadcasts' % (cn, sbd.path), sbd.where(),
-                  'State::set stores the value and hands it to the channel', 'State::set does not both store the value and broadcast it',
-                  {'stores': len(stores), 'sends': [t['callee'].get('name') for _, t in sends]})
+        srets = set(sbd.returns())
+        skip_send = bool(srets & sbd.reachable(0, avoid={b for b, _ in sends})) if sends else True
+        skip_store = bool(srets & sbd.reachable(0, avoid={b for b, _, _ in stores})) if stores else True
+        rep.check(ok and not skip_send and not skip_store, 'R20.5', '%s|%s|set-stores-and-broadcasts' % (cn, sbd.path), sbd.where(),
+                  'State::set stores the value and hands it to the channel on every path', 'State::set does not both store the value and broadcast it on every path '
+                  '(a set that is not broadcast - e.g. skipped because the value is unchanged - is never seen by a subscriber that has not received that value yet)',
+                  {'stores': len(stores), 'sends': [t['callee'].get('name') for _, t in sends], 'path_without_broadcast': skip_send, 'path_without_store': skip_store})
+    # ---- R20.8 set() cannot panic on the channel's answer
+    if setb:
+        sbd = C.async_body(crate, setb[0])
+        sends = [(b, t) for b, t in sbd.iter_terms('call') if t['callee'].get('name') in ('send', 'broadcast_direct', 'broadcast', 'try_broadcast')]
+        bad = []
+        for b, t in sbd.iter_terms('call'):
+            if t['callee'].get('name') in ('expect', 'unwrap', 'unwrap_or_else', 'expect_err', 'unwrap_err') and 'Result' in (t['callee'].get('def') or '') and t['args']:
+                q = op_place(t['args'][0])
+                if not q:
+                    continue
+                locs, events = sbd.slice_back([q['l']])
+                if any(ev[0] == 'call' and any(ev[1] == sb_ for sb_, _ in sends) for ev in events):
+                    if t['callee'].get('name') == 'unwrap_or_else':
+                        continue
+                    bad.append(C.where(sbd, b))
+        rep.check(not bad, 'R20.8', '%s|%s|set-survives-a-refused-broadcast' % (cn, sbd.path), sbd.where(),
+                  'State::set does not unwrap the channel\'s answer (the channel refuses a value while nobody is subscribed - a legal state)',
+                  'State::set unwraps / expects the result of the broadcast: the channel answers Err while no subscriber is active (no stream() yet, or all '
+                  'streams dropped), so a set() in that state panics and the state can never be subscribed to afterwards', {'sites': bad})
+        res['set_unwraps_send'] = bool(bad)
     return res
 
 
 def check(fx, rep, tier):
+    rep.rule('R20.8', 'State::set never panics on the answer of the channel: a refused broadcast (no active subscriber) is not unwrapped')
     rep.rule('R20.1', 'broadcast arm replies carry continues=Some(true), one-shot arm replies continues=Some(false); both built as Reply::new(Some(value))')
     rep.rule('R20.2', 'lag never ends a subscription: Err items are skipped by re-polling; Ready(None) only under the inner None')
     rep.rule('R20.3', 'one-shot yields at most one item: a terminated test guards the poll and is armed when the item is produced')
